@@ -51,6 +51,7 @@ class MacroExpander(Visitor):
             new_circuit.macros.update(circuit.macros)
         new_circuit.constants.update(circuit.constants)
         new_circuit.registers.update(circuit.registers)
+        new_circuit.usepulses.extend(circuit.usepulses)
         new_circuit.body.statements.extend(self.visit(circuit.body).statements)
         return new_circuit
 
@@ -58,20 +59,34 @@ class MacroExpander(Visitor):
         return LoopStatement(loop.iterations, self.visit(loop.statements))
 
     def visit_BlockStatement(self, block):
-        new_statements = []
-        for stmt in block.statements:
-            new_stmt = self.visit(stmt)
-            if (
-                isinstance(new_stmt, BlockStatement)
-                and new_stmt.parallel == block.parallel
-            ):
-                new_statements.extend(new_stmt.statements)
-            else:
-                new_statements.append(new_stmt)
-        return BlockStatement(parallel=block.parallel, statements=new_statements)
+        new_statements = [self.visit(stmt) for stmt in block.statements]
+        return rebuild_block(block, new_statements)
 
     def visit_GateStatement(self, gate):
         return replace_gate(gate, self.macros)
+
+
+def rebuild_block(block, new_statements):
+    """Return a block like the given one (same kind, subcircuit annotation
+    and iteration count) holding the new statements. Plain blocks of the
+    same kind, as left behind by an expanded macro, are spliced in, since
+    Jaqal does not nest a block directly in a block of the same kind."""
+    statements = []
+    for stmt in new_statements:
+        if (
+            isinstance(stmt, BlockStatement)
+            and not stmt.subcircuit
+            and stmt.parallel == block.parallel
+        ):
+            statements.extend(stmt.statements)
+        else:
+            statements.append(stmt)
+    return BlockStatement(
+        parallel=block.parallel,
+        subcircuit=block.subcircuit,
+        iterations=block.iterations,
+        statements=statements,
+    )
 
 
 def replace_gate(gate, macros):
@@ -103,10 +118,11 @@ class GateReplacer(Visitor):
         return self.visit(macro.body)
 
     def visit_BlockStatement(self, block: BlockStatement):
-        return BlockStatement(
-            parallel=block.parallel,
-            statements=[self.visit(stmt) for stmt in block.statements],
-        )
+        new_statements = [self.visit(stmt) for stmt in block.statements]
+        if block.subcircuit:
+            iterations = self.visit(block.iterations)
+            block = BlockStatement(subcircuit=True, iterations=iterations)
+        return rebuild_block(block, new_statements)
 
     def visit_LoopStatement(self, loop: LoopStatement):
         return LoopStatement(
